@@ -48,8 +48,9 @@ def applySet (c : Claims) (op : SetOp) : Claims × Outcome Unit :=
     | .p1 => if b.length != 32 then (c, .err eWrongSyntax) else ({ c with bootSeed := some b }, .ok ())
     | .p2 => if b.length < 8 || b.length > 32 then (c, .err eWrongSyntax) else ({ c with bootSeed := some b }, .ok ())
   | .certRef s =>
-    -- both profiles' setters accept either format
-    if !isEan13 s && !isEan13p5 s then (c, .err eWrongSyntax) else ({ c with certRef := some s }, .ok ())
+    match c.prof with
+    | .p1 => if !isEan13 s && !isEan13p5 s then (c, .err eWrongSyntax) else ({ c with certRef := some s }, .ok ())
+    | .p2 => if !isEan13p5 s then (c, .err eWrongSyntax) else ({ c with certRef := some s }, .ok ())
   | .sw l =>
     match c.prof with
     | .p1 =>
